@@ -878,9 +878,23 @@ impl DynObject {
 impl Hash for DynObject {
     fn hash<H: std::hash::Hasher>(&self, state: &mut H) {
         if let Some(iter) = self.try_iter_pairs() {
-            for (key, value) in iter {
-                key.hash(state);
-                value.hash(state);
+            if self.repr() == ObjectRepr::Map {
+                // maps compare equal regardless of the order of their entries (which is
+                // the insertion order with `preserve_order`), so the hash must not depend
+                // on the order either: combine the entry hashes commutatively.
+                let mut combined = 0u64;
+                for (key, value) in iter {
+                    let mut entry = std::collections::hash_map::DefaultHasher::new();
+                    key.hash(&mut entry);
+                    value.hash(&mut entry);
+                    combined = combined.wrapping_add(std::hash::Hasher::finish(&entry));
+                }
+                state.write_u64(combined);
+            } else {
+                for (key, value) in iter {
+                    key.hash(state);
+                    value.hash(state);
+                }
             }
         }
     }
